@@ -82,6 +82,15 @@ MUTANTS = [
     ("activated-flag-flipped-in-drop", "varlink/src/server.rs", r"Listener::UNIX\(Some\(ref listener\), false\) => \{", "Listener::UNIX(Some(ref listener), true) => {", {"C15"}),
     ("nodot-answered-with-method-not-found", "varlink/src/lib.rs",
      r"call\.reply_interface_not_found\(Some\(method\)\)\?;", "call.reply_method_not_found(method)?;", {"C03"}),
+    ("activation-without-pid-check", "varlink/src/server.rs",
+     r"Ok\(ref pid\) if pid\.parse::<usize>\(\) == Ok\(process::id\(\) as usize\) => \{\}", "Ok(_) => {}", {"C16"}),
+    ("activation-single-fd-is-4", "varlink/src/server.rs", r"if nfds == 1 \{\s*return Some\(3\);", "if nfds == 1 {\n        return Some(4);", {"C16"}),
+    ("server-semicolon-parameters-not-cut", "varlink/src/server.rs",
+     r'(\} else if let Some\(addr\) = address\.strip_prefix\("unix:"\) \{)\s*let addr = addr\.split\(\';\'\)\.next\(\)\.unwrap_or\(addr\);', r"\1", {"C16"}),
+    ("client-accepts-prefix-unix-without-colon", "varlink/src/client.rs",
+     r'\} else if let Some\(addr\) = new_address\.strip_prefix\("unix:"\) \{', '} else if let Some(addr) = new_address.strip_prefix("unix") {', {"C16"}),
+    ("server-unknown-scheme-under-activation-accepted", "varlink/src/server.rs",
+     r'(Some\(UnixListener::from_raw_fd\(l as RawFd\)\),\s*true,\s*\)\);\s*\}\s*\} else \{)\s*return Err\(context!\(ErrorKind::InvalidAddress\)\);', r"\1\n                    unsafe { return Ok(Listener::UNIX(Some(UnixListener::from_raw_fd(l as RawFd)), true)); }", {"C16"}),
     ("listen-drops-upgrade-tail", "varlink/src/server.rs",
      r"unread = if i\.is_some\(\) \{ rest \} else \{ Vec::new\(\) \};", "let _ = rest;", {"C02", "C01"}),
 ]
